@@ -450,13 +450,11 @@ pub fn valid_answer(offer: &SessionDescription, ans: &SessionDescription, cx: &C
                 v.su = false;
                 // what the two known defects produce: ONE role for the connection, derived from the first media-level a=setup of the
                 // first offer (never re-derived, session level not read); role unset -> "active"
-                let role_src = cx.first_offer.unwrap_or(offer);
-                let first_setup = role_src.media_sections.iter().find_map(|m| vals(m, "setup").first().copied());
+                let first_setup = offer.media_sections.iter().find_map(|m| vals(m, "setup").first().copied());
                 let known_answer = match first_setup { Some("active") | Some("actpass") => "passive", _ => "active" };
-                let cause = if *su != known_answer { "other" }
-                    else if session_level { "session-level-setup-not-read" }
-                    else if setups_differ { "sections-differ-first-setup-wins" }
-                    else if cx.renegotiation && first_setup != os { "role-kept-from-first-negotiation" } else { "other" };
+                // (session-level a=setup and the role of a re-offer are read since the round-3 fixes: no excuse for those any more)
+                let _ = session_level;
+                let cause = if *su == known_answer && setups_differ { "sections-differ-first-setup-wins" } else { "other" };
                 v.fails.push((format!("ans:setup:{}-answered-{}:{cause}", os.unwrap_or("none"), su), format!("section {i}")));
             }
         }
@@ -524,7 +522,9 @@ fn round_trip_desc(run: &mut Run, case: &str, origin: &str, d: &SessionDescripti
         Ok(d2) => {
             if d2 != *d && d2 == norm(d) {
                 // the literal clause fails; the ONLY difference is the printer's transport-first attribute partition
-                run.fail(&format!("rt:attribute-order:{origin}"), case, "parse(print(d)) != d: the printer moved ice-ufrag / ice-pwd / fingerprint / setup / candidate ahead of the other attributes of a section");
+                // descriptions the stack produced are in serialiser order since the round-3 fix: for them this is a defect again
+                let sig = if origin.starts_with("produced") { format!("rt:produced-description-not-exact:{origin}") } else { format!("rt:attribute-order:{origin}") };
+                run.fail(&sig, case, "parse(print(d)) != d: the printer moved ice-ufrag / ice-pwd / fingerprint / setup / candidate ahead of the other attributes of a section");
                 run.count("rt_not_exact_attribute_order");
             } else if d2 == *d { run.count("rt_exact"); }
             if d2 != norm(d) {
@@ -667,6 +667,20 @@ pub async fn exec_case(run: &mut Run, case: &str, ac: &AnsCase) {
         sender_pt_oracle(run, case, &pc, &offer, &ans);
         if first.is_none() { first = Some(offer.clone()); }
         reneg = true;
+    }
+    // the negotiated connection becomes an offerer: one more transceiver, a new offer. Its mids are pairwise different — what
+    // set_remote_description's skipping of the remote mids in the mid counter is for.
+    if reneg {
+        pc.add_transceiver(MediaKind::Audio, TransceiverDirection::SendRecv);
+        if let Ok(off) = pc.create_offer().await {
+            run.count("produced_reoffers");
+            let mut mids: Vec<&str> = off.media_sections.iter().map(|m| m.mid.as_str()).filter(|m| !m.is_empty()).collect();
+            let n0 = mids.len(); mids.sort(); mids.dedup();
+            if mids.len() != n0 && !c.offered_first {
+                run.fail("off:duplicate-mid-in-reoffer", case, &format!("offer after the negotiation carries mids {:?}", off.media_sections.iter().map(|m| m.mid.clone()).collect::<Vec<_>>()));
+            }
+            round_trip_desc(run, case, "produced-reoffer", &off);
+        }
     }
     pc.close();
     drop(keep);
